@@ -219,7 +219,10 @@ def gen_unit(rng, stream="main"):
         return gen_sweep_unit(rng)
     surrogates_ok = rng.random() < 0.3
     atoms = gen.soup(rng, surrogates_ok=surrogates_ok)
-    r0 = rng.random()
+    huge = rng.random() < 0.006
+    if huge:
+        atoms = gen.make_huge(rng)
+    r0 = rng.random() if not huge else 1.0
     if r0 < 0.02:
         atoms = [""]                       # the empty document (a BOM may still precede it)
     elif r0 < 0.06:
@@ -258,7 +261,13 @@ def gen_unit(rng, stream="main"):
             payload = text
             chars = text
         case["chunk"] = pick_chunk(rng, len(chars))
-        if kind in sources.SIM_KINDS:
+        if huge:
+            # keep the cost of a 100 KB document bounded: no tiny chunks, no 1-item reads
+            case["chunk"] = rng.choice([1000, 1024, 4096, 10240, 10240, 30000, max(1, len(chars) - 1), len(chars) // 2 + 1])
+        if kind in sources.SIM_KINDS and huge:
+            case["src"] = {"reads": [rng.randint(1, 20000) for _ in range(rng.randint(0, 6))], "rest": rng.choice([1 << 30, 1500, 8192, 65536])}
+            case["strategy"] = "huge"
+        elif kind in sources.SIM_KINDS:
             case["src"], case["strategy"] = make_schedule(rng, payload)
         else:
             case["src"], case["strategy"] = {"reads": [], "rest": 1 << 30}, "native"
